@@ -7,6 +7,26 @@ def increments(body, qfield):
     (debug: AddWithOverflow + assert; release: Add)."""
     adds = {}   # temp local -> (amount operand)
     out = []
+    # temporaries holding a constant (`const N as u64`, a named constant): the amount is that constant
+    ctemp, assigned = {}, {}
+    for b in body.blocks:
+        for s in b["stmts"]:
+            if s["k"] == "Assign" and not s["p"].get("p"):
+                l = s["p"]["l"]
+                assigned[l] = assigned.get(l, 0) + 1
+                rv = s["rv"]
+                if rv["k"] in ("Use", "Cast") and isinstance(rv.get("o"), dict):
+                    v = M.operand_const_int(rv["o"])
+                    if v is not None:
+                        ctemp[l] = v
+
+    def amount(op):
+        v = M.operand_const_int(op)
+        if v is None:
+            pl = M.operand_place(op)
+            if pl is not None and not pl.get("p") and assigned.get(pl["l"]) == 1 and pl["l"] in ctemp:
+                return ctemp[pl["l"]]
+        return v
     for bi, b in enumerate(body.blocks):
         for s in b["stmts"]:
             if s["k"] != "Assign":
@@ -22,10 +42,10 @@ def increments(body, qfield):
                     src = M.operand_place(rv["o"])
                     if src is not None and src["l"] in adds:
                         amt = adds[src["l"]]
-                        out.append((bi, M.operand_const_int(amt), amt, s["sp"]))
+                        out.append((bi, amount(amt), amt, s["sp"]))
                         continue
                 if rv["k"] == "BinaryOp" and rv["op"] in ("Add", "AddUnchecked"):
-                    out.append((bi, M.operand_const_int(rv["b"]), rv["b"], s["sp"]))
+                    out.append((bi, amount(rv["b"]), rv["b"], s["sp"]))
                     continue
                 out.append((bi, "assign", rv, s["sp"]))
     return out
